@@ -12,10 +12,10 @@ def load_registry():
     files = sorted(glob.glob(os.path.join(HERE, "contracts", "*.py")))
     # classes first
     files.sort(key=lambda p: (0 if os.path.basename(p).startswith("00_") else 1, p))
+    g = dict(api)     # one namespace for all contract files (helpers defined in earlier files stay visible)
     for p in files:
         if os.path.basename(p).startswith("harness_") or os.path.basename(p).startswith("_"):
             continue
-        g = dict(api)
         g["__file__"] = p
         exec(compile(open(p).read(), p, "exec"), g)
     return reg
